@@ -2,8 +2,8 @@
    path.  Only the property theorems, refutation witnesses of the open findings,
    non-vacuity examples, Print Assumptions. *)
 From Coq Require Import List ZArith Bool.
-From Model Require Import Orm.
-From Proofs Require Import OrmSpec OrmInvRun OrmInvC04 OrmInvCex.
+From Model Require Import Orm OrmPaths.
+From Proofs Require Import OrmSpec OrmInvRun OrmInvC04 OrmInvCex OrmPathsSpec OrmPathsC04.
 Import ListNotations.
 Open Scope Z_scope.
 
@@ -98,6 +98,91 @@ Theorem C04_cached_is_current :
     i_obsolete (get_inst s o) = false.
 Proof. exact OrmInvC04.C04_cached_is_current. Qed.
 
+(* ------------------------------------------------------------------ access paths through another object *)
+(* `prun cfg pops` = the state after a history that may also follow foreign keys (PFk: read the referencing
+   column, then get) and call MultipleJoin accessors (PJoin: select the referencing ids, then get each);
+   `pguard04` = guard04 on the base operations, every path operation, no injected faults. *)
+
+(* One live instance per row also in the states such histories reach ... *)
+Theorem C04_paths_unique :
+  forall (cfg : config) (pops : list pop) (o1 o2 : nat) (k : kind) (id : Z),
+    forallb pguard04 pops = true ->
+    let s := prun cfg pops in
+    held s o1 -> held s o2 -> current s o1 -> current s o2 ->
+    is_row s o1 k id -> is_row s o2 k id ->
+    assoc id (t_rows (tbl s k)) <> None ->
+    o1 = o2.
+Proof. exact C04_paths_unique_proof. Qed.
+
+(* ... get by id still hands back the held object there ... *)
+Theorem C04_paths_get_returns_held :
+  forall (cfg : config) (pops : list pop) (o : nat) (k : kind) (id id' : Z) (tok : option nat) (s' : st),
+    forallb pguard04 pops = true ->
+    let s := prun cfg pops in
+    held s o -> current s o -> is_row s o k id ->
+    assoc id (t_rows (tbl s k)) <> None ->
+    pstep cfg s (PBase (OGet k id)) = (Ret (RObj id' tok), s') ->
+    id' = id /\ tok = slot_of s o /\ tok <> None.
+Proof. exact C04_paths_get_returns_held_proof. Qed.
+
+(* ... following a foreign key hands back the very object the application holds for the referenced row ... *)
+Theorem C04_fk_returns_held :
+  forall (cfg : config) (pops : list pop) (h : nat) (k' : kind) (o : nat) (id' : Z) (tok : option nat) (s' : st),
+    forallb pguard04 pops = true ->
+    let s := prun cfg pops in
+    held s o -> current s o -> is_row s o k' id' ->
+    assoc id' (t_rows (tbl s k')) <> None ->
+    pstep cfg s (PPath (PFk h k')) = (Ret (RObj id' tok), s') ->
+    tok = slot_of s o /\ tok <> None.
+Proof. exact C04_fk_returns_held_proof. Qed.
+
+(* ... and so does a join accessor, for every row it yields, however often the cache culled itself meanwhile. *)
+Theorem C04_join_returns_held :
+  forall (cfg : config) (pops : list pop) (h : nat) (k' : kind) (keep : option nat) (o : nat) (id : Z)
+         (res : list (Z * option nat)) (tok : option nat) (s' : st),
+    forallb pguard04 pops = true ->
+    let s := prun cfg pops in
+    held s o -> current s o -> is_row s o k' id ->
+    pstep cfg s (PPath (PJoin h k' keep)) = (Ret (RObjs res), s') ->
+    In (id, tok) res -> tok = slot_of s o /\ tok <> None.
+Proof. exact C04_join_returns_held_proof. Qed.
+
+(* With no unpickling in the history a foreign key never leads to an instance of a deleted row. *)
+Theorem C04_fk_deleted_not_returned_partial :
+  forall (cfg : config) (pops : list pop) (h : nat) (k' : kind) (id' : Z) (tok : option nat) (s' : st),
+    forallb pguard04 pops = true -> forallb pno_unpickle pops = true ->
+    let s := prun cfg pops in
+    pstep cfg s (PPath (PFk h k')) = (Ret (RObj id' tok), s') ->
+    assoc id' (t_rows (tbl s' k')) <> None.
+Proof. exact C04_fk_deleted_not_returned_proof. Qed.
+
+(* A join accessor yields exactly the referencing rows, by id. *)
+Theorem C04_join_yields_referencing_rows :
+  forall (cfg : config) (pops : list pop) (h : nat) (k' : kind) (keep : option nat) (o : nat)
+         (res : list (Z * option nat)) (s' : st),
+    forallb pguard04 pops = true ->
+    let s := prun cfg pops in
+    nth h (slots s) None = Some o ->
+    pstep cfg s (PPath (PJoin h k' keep)) = (Ret (RObjs res), s') ->
+    map fst res = join_ids s k' (i_id (get_inst s o)).
+Proof. exact C04_join_yields_referencing_rows_proof. Qed.
+
+Theorem C04_paths_cached_is_current :
+  forall (cfg : config) (pops : list pop) (k : kind) (id : Z) (o : nat),
+    forallb pguard04 pops = true ->
+    let s := prun cfg pops in
+    (In (id, o) (c_strong (cch s k)) \/ In (id, o) (c_weak (cch s k))) ->
+    i_obsolete (get_inst s o) = false.
+Proof. exact C04_paths_cached_is_current_proof. Qed.
+
+(* non-vacuity: a parent (Eager 1), two children (Lazy 1, 2) referencing it, both classes culled *)
+Example C04_paths_example_fk :
+  fst (pstep cfgC (prun cfgC phist) (PPath (PFk 1 Eager))) = Ret (RObj 1 (Some 0%nat)).
+Proof. exact phist_fk. Qed.
+Example C04_paths_example_join :
+  fst (pstep cfgC (prun cfgC phist) (PPath (PJoin 0 Lazy (Some 0%nat)))) = Ret (RObjs [(1, Some 1%nat); (2, Some 2%nat)]).
+Proof. exact phist_join. Qed.
+
 (* ------------------------------------------------------------------ what is FALSE of the code (open findings) *)
 Definition cfgT : config := {| doCache := true; cullFreq := 100; cullFrac := 2 |}.
 Definition cfgF : config := {| doCache := false; cullFreq := 100; cullFrac := 2 |}.
@@ -152,3 +237,10 @@ Print Assumptions C04_select_returns_held.
 Print Assumptions C04_unpickle_no_duplicate.
 Print Assumptions C04_deleted_not_returned_partial.
 Print Assumptions C04_cached_is_current.
+Print Assumptions C04_paths_unique.
+Print Assumptions C04_paths_get_returns_held.
+Print Assumptions C04_fk_returns_held.
+Print Assumptions C04_join_returns_held.
+Print Assumptions C04_fk_deleted_not_returned_partial.
+Print Assumptions C04_join_yields_referencing_rows.
+Print Assumptions C04_paths_cached_is_current.
